@@ -567,6 +567,40 @@ pub fn gen_c16_yuv(sh: &mut Shards, o: &Opts) -> u64 {
             }
         }
     }
+    // large grey frames (size-dependent decode paths), probed; every luma code appears
+    for (k, &n) in [8u8, 10, 13, 16].iter().enumerate() {
+        for full in [false, true] {
+            let c = Cfg { mc: MC_STD[(k * 2 + usize::from(full)) % 7], tc: 1, cp: 1, full, n, ssx: 0, ssy: 0 };
+            let mut rng = Rng::new(o.seed, 0x1616_b160 + k as u64);
+            let (w, h) = (701usize, 523usize);
+            let mid = (1u32 << (n - 1)) as u16;
+            let total = 1usize << n;
+            let px: Vec<[u16; 3]> = (0..w * h).map(|i| [(i % total) as u16, mid, mid]).collect();
+            let idx = crate::util::probe_indices(w * h, w, &mut rng);
+            let yuv = yuv444::<u16>(&px, w, h, &c).expect("ctor");
+            let sel: Vec<[u16; 3]> = idx.iter().map(|&i| px[i]).collect();
+            let mut s = String::new();
+            let _ = write!(s, "\"ev\":\"grey\",\"probe\":1,\"cfg\":{},\"st\":16,\"w\":{w},\"h\":{h},\"px\":", c.json());
+            list(&mut s, &sel, |o2, p| {
+                let _ = write!(o2, "[{},{},{}]", p[0], p[1], p[2]);
+            });
+            match crate::util::guard(|| Rgb::try_from(&yuv)) {
+                Ok(Ok(rgb)) if rgb.data().len() == px.len() => {
+                    let out: Vec<[f32; 3]> = idx.iter().map(|&i| rgb.data()[i]).collect();
+                    s.push_str(",\"res\":\"ok\",\"out\":");
+                    list(&mut s, &out, px_fx);
+                    s.push_str(",\"ob\":");
+                    list(&mut s, &out, crate::util::px_bits);
+                }
+                Ok(Err(e)) => {
+                    let _ = write!(s, ",\"res\":\"{}\"", crate::frames::err_name_conv(e));
+                }
+                _ => s.push_str(",\"res\":\"panic\""),
+            }
+            sh.emit(&s);
+            evals += idx.len() as u64;
+        }
+    }
     // "every matrix": the non-standard matrix codes that the library decodes with primaries-derived
     // constants (whatever it chooses to do for them, a grey must stay grey when the call succeeds)
     let mut k = 0usize;
